@@ -9,6 +9,11 @@
 //!      session ids: z in 0..n = id of session z; 1000+r = unrelated random id; 2000+j = id of j
 //!      cut to 31 bytes; 3000 = empty; 4000+j = id of j plus one byte.
 //!  {"t":"pair","net":..,"out":{..},"in":{..}}        two honest ends on one session
+//!  {"t":"glue","net":"g"|"c","key":i,"allowed":[..],"limit":"L","events":[["conn",spec]|["disc",c]..]}
+//!      a real `Network` (public `Network::new`, in-memory engine) wrapped in `verif::Glue`; the
+//!      adversary opens connection c = 0,1,2.. (spec as above, genesis 0 = the node's own) and
+//!      closes connections; pools observed after every event.  net "g": allowed = static_inbound,
+//!      limit = dynamic_inbound_limit; net "c": allowed = committee (extra limit is the code's).
 //!  {"t":"pool","n":N,"allowed":[..],"limit":"L","ops":[["i",k]|["r",k]..]}
 //!  {"t":"poolc","n":N,"allowed":[..],"limit":"L","conns":[{"key":k,"pre":a,"hold":b,"rounds":r}..],"workers":w}
 use std::collections::{HashMap, HashSet};
@@ -20,8 +25,8 @@ use vh::{keys, util::*};
 use zksync_concurrency::{ctx, limiter, net, time};
 use zksync_consensus_crypto::{keccak256::Keccak256, ByteFmt, Text};
 use zksync_consensus_network::{
-    verif::{consensus as vc, gossip as vg, Pool, TcpNoise},
-    Config, GossipConfig, RpcConfig,
+    verif::{consensus as vc, gossip as vg, Glue, Pool, TcpNoise},
+    Config, GossipConfig, Network, RpcConfig,
 };
 use zksync_consensus_roles::{node, validator};
 
@@ -443,6 +448,189 @@ async fn run_pair(env: Arc<Env>, listener: &mut net::tcp::Listener, c: &Value) -
     json!({ "out": res_json(&ro), "in": res_json(&ri) })
 }
 
+
+/// A real node built with the public constructor, its admission glue executed on sessions whose
+/// other end is the adversary.
+async fn run_glue(env0: Arc<Env>, listener: &mut net::tcp::Listener, c: &Value) -> Value {
+    use zksync_consensus_roles::validator::testonly::{Setup, SetupSpec};
+    let ctx = &ctx::root();
+    let gossip = c["net"].as_str().unwrap() == "g";
+    let key = c["key"].as_u64().unwrap() as usize;
+    let allowed: Vec<usize> = c["allowed"]
+        .as_array()
+        .unwrap()
+        .iter()
+        .map(|x| x.as_u64().unwrap() as usize)
+        .collect();
+    let limit = u64_of(&c["limit"]) as usize;
+    // committee: for the validator network the allowed set, else some fixed committee
+    let committee: Vec<usize> = if gossip || allowed.is_empty() { vec![0] } else { allowed.clone() };
+    let spec = SetupSpec {
+        chain_id: validator::ChainId(1337),
+        fork_number: validator::ForkNumber(0),
+        first_block: validator::BlockNumber(0),
+        first_pregenesis_block: validator::BlockNumber(0),
+        protocol_version: validator::ProtocolVersion::CURRENT,
+        validator_weights: committee.iter().map(|&i| (env0.vals[i].clone(), 1)).collect(),
+        leader_selection: validator::LeaderSelection {
+            frequency: 1,
+            mode: validator::LeaderSelectionMode::RoundRobin,
+        },
+        epoch: validator::EpochNumber(0),
+    };
+    let setup = Setup::from_spec(&mut ctx.rng(), spec);
+    // genesis 0 of this case = the node's own chain
+    let mut gens = env0.gens.clone();
+    gens[0] = setup.genesis_hash();
+    let env = Arc::new(Env {
+        nodes: env0.nodes.clone(),
+        vals: env0.vals.clone(),
+        gens,
+        addr: env0.addr,
+    });
+    let engine = zksync_consensus_engine::testonly::TestEngine::new(ctx, &setup).await;
+    let mut cfg = make_cfg(&env, key, if gossip { &allowed } else { &[] }, false);
+    cfg.gossip.dynamic_inbound_limit = limit;
+    cfg.validator_key = Some(env.vals[key].clone());
+    let (con_send, _con_recv) = zksync_concurrency::sync::prunable_mpsc::unpruned_channel();
+    let (_net_send, net_recv) = zksync_concurrency::ctx::channel::unbounded();
+    let (net, _runner) = Network::new(cfg, engine.manager.clone(), Some(setup.epoch), con_send, net_recv)
+        .expect("Network::new");
+    let glue = Arc::new(Glue(net));
+    let engine_task = tokio::spawn(async move {
+        let ctx = ctx::root();
+        let _ = engine.runner.run(&ctx).await;
+    });
+
+    let pools = |glue: &Glue| -> Value {
+        let mut gi: Vec<i64> = glue
+            .gossip_inbound()
+            .iter()
+            .map(|k| env.nodes.iter().position(|x| &x.public() == k).map(|i| i as i64).unwrap_or(-1))
+            .collect();
+        gi.sort();
+        let mut ci: Vec<i64> = glue.consensus_inbound().iter().map(|k| keys::rank(&env.vals, k)).collect();
+        ci.sort();
+        json!({"g": gi, "c": ci, "go": glue.gossip_outbound().len(), "co": glue.consensus_outbound().len()})
+    };
+
+    let mut ids: Vec<[u8; 32]> = vec![];
+    let mut recs: Vec<Option<Msg>> = vec![];
+    let mut advs: Vec<Option<TcpNoise>> = vec![];
+    let mut handles: Vec<Option<tokio::task::JoinHandle<bool>>> = vec![];
+    let mut out = vec![];
+    let mut stuck = false;
+    for ev in c["events"].as_array().unwrap() {
+        match ev[0].as_str().unwrap() {
+            "conn" => {
+                let spec = &ev[1];
+                let (mut a, server) = establish(ctx, &env, listener).await;
+                ids.push(a.id());
+                recs.push(None);
+                let cix = ids.len() - 1;
+                let g2 = glue.clone();
+                let mut h = tokio::task::spawn_local(async move {
+                    let ctx = ctx::root();
+                    if gossip {
+                        g2.gossip_run_inbound_stream(&ctx, server).await.is_ok()
+                    } else {
+                        g2.consensus_run_inbound_stream(&ctx, server).await.is_ok()
+                    }
+                });
+                let mut delivered = Value::Null;
+                let mut sent = false;
+                if let Some(kind) = spec.get("mal").and_then(|m| m.as_str()) {
+                    match kind {
+                        "junk" => {
+                            let _ = a.send_proto(ctx, &env.gens[0]).await;
+                        }
+                        "oversize" => {
+                            let big = node::SessionId(vec![1u8; 20_000]);
+                            let m = if gossip {
+                                Msg::G(env.nodes[0].sign_msg(big), env.gens[0], false)
+                            } else {
+                                Msg::C(env.vals[0].sign_msg(big), env.gens[0])
+                            };
+                            send_msg(ctx, &mut a, &m).await;
+                        }
+                        "othernet" => {
+                            let m = if gossip {
+                                Msg::C(env.vals[0].sign_msg(node::SessionId(ids[cix].to_vec())), env.gens[0])
+                            } else {
+                                Msg::G(env.nodes[0].sign_msg(node::SessionId(ids[cix].to_vec())), env.gens[0], false)
+                            };
+                            send_msg(ctx, &mut a, &m).await;
+                        }
+                        _ => {}
+                    }
+                } else if let Some(m) = build_msg(&env, gossip, &ids, &recs, spec) {
+                    delivered = symbolize(&env, &ids, &m);
+                    send_msg(ctx, &mut a, &m).await;
+                    sent = true;
+                }
+                let mut responded = false;
+                let mut live = false;
+                let mut keep = None;
+                if sent {
+                    if let Some(m) = recv_msg(ctx, gossip, &mut a).await {
+                        responded = true;
+                        recs[cix] = Some(m);
+                        // past the handshake: either the insert fails and the node closes the stream,
+                        // or it starts the rpc service whose first frame arrives here
+                        let _ = a
+                            .recv_proto::<validator::GenesisHash>(
+                                &ctx.with_timeout(time::Duration::seconds(3)),
+                                10_000,
+                            )
+                            .await;
+                        for _ in 0..4 {
+                            tokio::task::yield_now().await;
+                        }
+                        live = !h.is_finished();
+                        if live {
+                            keep = Some(a);
+                        }
+                    }
+                }
+                if !live {
+                    drop(keep.take());
+                    if tokio::time::timeout(std::time::Duration::from_secs(8), &mut h).await.is_err() {
+                        stuck = true;
+                        h.abort();
+                    }
+                    handles.push(None);
+                } else {
+                    handles.push(Some(h));
+                }
+                advs.push(keep);
+                out.push(json!({"ev": "conn", "c": cix, "responded": responded, "live": live,
+                                "delivered": delivered, "pools": pools(&glue)}));
+            }
+            _ => {
+                let cix = ev[1].as_u64().unwrap() as usize;
+                if cix < advs.len() {
+                    drop(advs[cix].take());
+                    if let Some(mut h) = handles[cix].take() {
+                        if tokio::time::timeout(std::time::Duration::from_secs(8), &mut h).await.is_err() {
+                            stuck = true;
+                            h.abort();
+                        }
+                    }
+                }
+                out.push(json!({"ev": "disc", "c": cix, "pools": pools(&glue)}));
+            }
+        }
+        if stuck {
+            break;
+        }
+    }
+    for h in handles.iter().flatten() {
+        h.abort();
+    }
+    engine_task.abort();
+    json!({ "events": out, "stuck": stuck })
+}
+
 fn pool_of(env: &Env, c: &Value) -> (Arc<Pool<node::PublicKey>>, HashSet<usize>, usize) {
     let allowed: HashSet<usize> = c["allowed"]
         .as_array()
@@ -628,6 +816,18 @@ fn main() {
         let out = match c["t"].as_str().unwrap() {
             "script" => local.block_on(&rt, run_script(env.clone(), &mut listener, &c)),
             "pair" => local.block_on(&rt, run_pair(env.clone(), &mut listener, &c)),
+            "glue" => local.block_on(&rt, async {
+                // per-case watchdog: a case can never hang the check
+                match tokio::time::timeout(
+                    std::time::Duration::from_secs(60),
+                    run_glue(env.clone(), &mut listener, &c),
+                )
+                .await
+                {
+                    Ok(v) => v,
+                    Err(_) => json!({"events": [], "stuck": true, "watchdog": true}),
+                }
+            }),
             "pool" => local.block_on(&rt, run_pool(env.clone(), &c)),
             "poolc" => run_poolc(env.clone(), &c),
             t => panic!("unknown case type {t}"),
